@@ -19,9 +19,11 @@ F(idx, name, detail) == [rec |-> idx, pred |-> name, detail |-> ToString(detail)
 \* all durations are logged in ns but only compared through these flags computed by the runner (TLC integers are 32 bit)
 Check(r, idx) ==
     (IF r.hang = 1 THEN <<F(idx, "C13.hang", r.sc)>> ELSE <<>>)
-    \o (IF r.hang = 0 /\ r.mustsweep = 1 /\ r.est # r.sc.warmlive THEN <<F(idx, "C13.still_counted", <<r.est, r.sc>>)>> ELSE <<>>)
+    \o (IF r.hang = 0 /\ r.massn = 0 /\ r.mustsweep = 1 /\ r.est # r.sc.warmlive THEN <<F(idx, "C13.still_counted", <<r.est, r.sc>>)>> ELSE <<>>)
     \* (a removal that was reported, but as Overflow, is C06's: the cause does not match)
-    \o (IF r.hang = 0 /\ r.mustsweep = 1 /\ r.expired # 1 /\ ~(r.overflow = 1 /\ r.expired = 0) THEN <<F(idx, "C13.expiration_not_reported", <<r.expired, r.other, r.sc>>)>> ELSE <<>>)
+    \o (IF r.hang = 0 /\ r.massn = 0 /\ r.mustsweep = 1 /\ r.expired # 1 /\ ~(r.overflow = 1 /\ r.expired = 0) THEN <<F(idx, "C13.expiration_not_reported", <<r.expired, r.other, r.sc>>)>> ELSE <<>>)
+    \* many entries due in one sweep (op mass-x): one quiescent run removes and reports every one of them
+    \o (IF r.hang = 0 /\ r.massn > 0 /\ (r.est # 0 \/ r.massexpired # r.massn) THEN <<F(idx, "C13.mass_expiration_incomplete", <<r.massn, r.est, r.massexpired, r.other, r.sc>>)>> ELSE <<>>)
     \* gated read race (ExpireRace.tla): the sweeper is parked between the wheel's test of the deadline and the removal while the
     \* read stores the extended deadline.  A cache that is not above its maximum (or has none) never reports Overflow, and the
     \* racing value is reported at most once.
